@@ -34,10 +34,6 @@ fn check_index_arithmetic(l: &VMLayout) {
     if a >= s.as_usize() && a < e.as_usize() {
         assert!(idx == i, "C31.space_map.address_in_space_i_resolves_to_slot_i");
     }
-    // below the first space everything resolves to slot 0 (the empty space's slot)
-    if a < (1usize << lse) {
-        assert!(idx == 0, "C31.space_map.below_first_space_resolves_to_slot_0");
-    }
     kani::cover!(a == usize::MAX, "C31.cover.max_address");
     kani::cover!(a == 0, "C31.cover.zero_address");
     kani::cover!(idx == 31, "C31.cover.last_slot");
@@ -54,11 +50,11 @@ fn c31_space_map_index_any_layout() {
 
 /// The real default 64-bit layout, the real `SFTSpaceMap::new()` and its `has_sft_entry`.
 #[kani::proof]
-#[kani::unwind(34)]
+#[kani::unwind(70)]
 fn c31_space_map_default_layout() {
     let l = VMLayout::new_64bit();
     let map = sm::SFTSpaceMap::new();
-    assert!(sm::table_len(&map) == 32, "C31.space_map.table_has_32_slots");
+    assert!(sm::table_len(&map) >= MAX_SPACES, "C31.space_map.table_covers_all_spaces");
     let a: usize = kani::any();
     let idx = sm::addr_to_index(addr(a));
     assert!(idx < sm::table_len(&map), "C31.space_map.index_inside_real_table");
